@@ -334,14 +334,14 @@ func (f *FnVC) atStore(st *State, x *ssa.Store, p Val, v Val) {
 		if base != nil {
 			env.names["base"] = *base
 		}
-		val, err := f.evalSpec(env, as.Clause.Expr, types.Typ[types.Bool])
-		if err != nil {
-			f.E.specError(as.Clause, err)
-			continue
-		}
 		lbl := as.Clause.Label
 		if lbl == "" {
 			lbl = fname
+		}
+		val, err := f.evalSpec(env, as.Clause.Expr, types.Typ[types.Bool])
+		if err != nil {
+			f.obligeSpecError("at-store", lbl, as.Clause, err)
+			continue
 		}
 		f.oblige("at-store", lbl, st, val.T, x.Pos(), "at-store "+fname+": "+as.Clause.Text)
 	}
